@@ -115,7 +115,12 @@ func main() {
 		nontriv := len(in.Recs) >= 2 && o.Err == ""
 		out.Add(lib.Case{Term: term(in, o), JSON: map[string]interface{}{"input": in, "observed": o},
 			Sig: sig(in), Kind: kind, Shape: shape(in), Nontriv: nontriv})
-		out.Count("type", in.Type)
+		if isGen(in.Type) {
+			out.Count("type", "generated")
+			out.Count("generated_fields", fmt.Sprint(len(in.Spec)))
+		} else {
+			out.Count("type", in.Type)
+		}
 		out.Count("op", in.Op)
 		out.Count("returning", fmt.Sprint(!in.NoRet))
 		out.Count("records", fmt.Sprint(len(in.Recs)))
@@ -170,6 +175,9 @@ func main() {
 			if g.NoRet {
 				g.Op = lib.Pick(r, []string{"map", "maps", "mapsptr"})
 			}
+		} else if r.Chance(2, 5) {
+			g.Type, g.Spec = genSpec(r, i)
+			g.Op = lib.Pick(r, structOps)
 		} else {
 			g.Type = lib.Pick(r, mainTypes)
 			g.Op = lib.Pick(r, structOps)
@@ -180,6 +188,6 @@ func main() {
 		}
 		add(kind, genInput(r, i, g))
 	}
-	out.Extra["rule"] = "cases = model type (fixed family of 10 hand-written struct types: integer widths, floats/bool/string/bytes/time and pointers, sql.Null*, custom Scanner/Valuer, json/gob/unixtime serializers, embedded structs with prefixes and renamed columns, literal and database-generated defaults, tracked times, composite / renamed / string keys) x RETURNING on/off x Create of struct | slice | slice of pointers | CreateInBatches(bs) | map | []map x 1..7 records of boundary values x preset / zero / mixed keys x pre-existing rows; distinct = distinct (type, mode, op, sizes, per-cell value class zero/nil/absent/value) shapes; non-trivial = at least two records created without error"
+	out.Extra["rule"] = "cases = model type (fixed family of 10 hand-written struct types plus, in 2 of 5 struct cases, a struct type GENERATED at run time with reflect.StructOf from the grammar key kind {uint,int64,uint32,renamed,composite} x 3..12 fields drawn from 42 Go types x their tag alternatives (column:, default:, autoCreateTime/autoUpdateTime variants, serializer json/gob/unixtime, embedded+embeddedPrefix); the family covers: integer widths, floats/bool/string/bytes/time and pointers, sql.Null*, custom Scanner/Valuer, json/gob/unixtime serializers, embedded structs with prefixes and renamed columns, literal and database-generated defaults, tracked times, composite / renamed / string keys) x RETURNING on/off x Create of struct | slice | slice of pointers | CreateInBatches(bs) | map | []map x 1..7 records of boundary values x preset / zero / mixed keys x pre-existing rows; distinct = distinct (type, mode, op, sizes, per-cell value class zero/nil/absent/value) shapes; non-trivial = at least two records created without error"
 	lib.Must(out.Flush())
 }
